@@ -80,6 +80,8 @@ def run(prop, mod, tier, seed, replay, log, broken, workdir, t0):
         harness = core.build_harness(log, race=getattr(mod, "HARNESS_RACE", False))
         if getattr(mod, "NEEDS_BINARY", False):
             core.build_rdpgw(log)
+        if getattr(mod, "NEEDS_BINARY_RACE", False):
+            core.build_rdpgw(log, race=True)
 
     names, prints = core.count_obligations(prop)
     nblocks, axioms = core.parse_assumptions(assumptions_out)
